@@ -265,11 +265,45 @@ fn gen_arbitrary(r: &mut Rng, n: usize) -> (&'static str, Vec<f64>) {
     }
 }
 
+/// i64 inputs built so that a chunk boundary lands on the very edge of the band the code accepts,
+/// for a total of 2^57..2^62: the prefix sum equals min_part_weight (lower edge) or
+/// max_part_weight (upper edge) as the code computes them in f64, and these are tens to hundreds
+/// of units outside the exact "1% of half + 1 unit"; a 1-unit slab next to the cut keeps the
+/// half-weight mark away from the cut.  (The thresholds are recomputed here with the same f64
+/// expression as rcb.rs; the Coq side does not rely on it.)
+fn gen_band_edge(r: &mut Rng, three: bool) -> (Vec<usize>, Vec<i64>) {
+    loop {
+        let e = r.range(57, 62) as u32;
+        let tot: i64 = (1i64 << (e - 1)) + r.below(1u64 << (e - 1)) as i64;
+        let ideal = tot as f64 / 2.0;
+        let mn = (ideal * (1.0 - 0.01)) as i64;
+        let mx = (ideal * (1.0 + 0.01)) as i64;
+        let t = tot as i128;
+        if r.chance(1, 2) {
+            if 200 * (mn as i128) < 99 * t - 200 {
+                let ws = vec![mn, 1, tot - mn - 1];
+                return (if three { vec![1, 3, 1] } else { vec![1, 3] }, ws);
+            }
+        } else if 200 * (mx as i128) > 101 * t + 200 {
+            // chunk size 2 for pools 1 and 2: boundaries at slabs 0 and 2, prefix(2) = mx
+            let rest = tot - mx;
+            let r1 = r.range(0, rest);
+            let ws = vec![mx - 1, 1, r1, rest - r1];
+            return (if three { vec![1, 4, 1] } else { vec![1, 4] }, ws);
+        }
+    }
+}
+
 fn gen_input(r: &mut Rng, tier: &str) -> Input {
     let big = tier == "thorough";
-    let dims = gen_dims(r, big);
+    let mut dims = gen_dims(r, big);
     let n: usize = dims.iter().product();
-    let (fam, w) = match r.below(20) {
+    let (fam, w) = match r.below(21) {
+        20 => {
+            let (d, ws) = gen_band_edge(r, dims.len() == 3);
+            dims = d;
+            ("i64_band_edge".to_string(), Weights::I64(ws))
+        }
         0..=7 => {
             let (name, ws) = gen_int_weights(r, n, true);
             (format!("i64_{}", name), Weights::I64(ws))
@@ -294,10 +328,14 @@ fn gen_input(r: &mut Rng, tier: &str) -> Input {
             (format!("f64_{}", name), Weights::F64 { f, z, k, exact: false })
         }
     };
-    let k = match r.below(10) {
-        0 => 0,
-        1 => 6,
-        _ => r.range(0, 6) as usize,
+    let k = if fam == "i64_band_edge" {
+        r.range(1, 2) as usize
+    } else {
+        match r.below(10) {
+            0 => 0,
+            1 => 6,
+            _ => r.range(0, 6) as usize,
+        }
     };
     Input { fam, dims, w, k }
 }
@@ -382,7 +420,15 @@ fn main() {
         let (zs, wty_coq, wty_json, exact): (Vec<i128>, String, String, bool) = match &inp.w {
             Weights::I64(ws) => {
                 n_i64 += 1;
-                (ws.iter().map(|x| *x as i128).collect(), "I64".into(), "\"weight_type\":\"i64\"".into(), true)
+                let tot: i128 = ws.iter().map(|x| *x as i128).sum();
+                // class predicate (from the input alone) of the finding "the literal 1% + 1 unit
+                // can fail by float rounding of the thresholds": i64 weights, total >= 2^46
+                let tag = if tot >= (1i128 << 46) {
+                    "\"weight_type\":\"i64\",\"kf\":\"gridrcb-i64-total-ge-2p46-band-rounding\""
+                } else {
+                    "\"weight_type\":\"i64\""
+                };
+                (ws.iter().map(|x| *x as i128).collect(), "I64".into(), tag.into(), true)
             }
             Weights::F64 { f, z, k, exact } => {
                 if *exact {
